@@ -246,7 +246,7 @@ def build_silf(m, version=0x00030000):
     flags = m.get("flags", 0)
     sub += u16(nglyphs - 1) + u16(0) + u16(0)
     ipos = nsub
-    sub += u8(npass) + u8(0) + u8(ipos) + u8(npass) + u8(m.get("bidipass", 0xFF)) + u8(flags) + u8(m.get("maxpre", 2)) + u8(m.get("maxpost", 5))
+    sub += u8(npass) + u8(0) + u8(ipos) + u8(m.get("jpass", npass)) + u8(m.get("bidipass", 0xFF)) + u8(flags) + u8(m.get("maxpre", 2)) + u8(m.get("maxpost", 5))
     sub += u8(A_PSEUDO) + u8(A_BREAK) + u8(A_BIDI) + u8(A_MIRROR) + u8(m.get("apassbits", A_PASSBITS)) + u8(0)
     sub += u16(0) + u8(m.get("nuser", 0)) + u8(0) + u8(1 + (m.get("rtl", 0) & 1)) + u8(m.get("acoll", 0)) + b"\0\0\0"
     sub += u8(0) + u8(0)                              # numCritFeatures, reserved
